@@ -17,9 +17,11 @@ CONSTANTS
   AllowUnsub = FALSE
   AllowParentCancel = FALSE
   CtxCancels = 0
+  Redundant = 0
   WaitLocksMu = FALSE
   StatsBuffered = TRUE
   RecvWaitsFirst = TRUE
   KF_UnsubWindow = TRUE
+  CtlBuf = 0
 INVARIANTS TypeOK NoStall
 CHECK_DEADLOCK FALSE
